@@ -1,5 +1,5 @@
 """Generators and the generic driver of the phase-level checks (C01, C02, C05, C09, C11)."""
-import itertools, json
+import itertools, random, json
 import vlib, phaselib as pl
 
 IMPORTS = "From PKO Require Import Base Owner Api Phase.\nFrom PKOCorr Require Import PhaseCorr C01Corr C02Corr C05Corr PhaseMonitors."
@@ -118,6 +118,65 @@ def run_cases(run, scs, judge, arity, mode="phase"):
 
 
 
+def fault_stage(run, pid, tier, seed, results, judge, identity, only=None):
+    """API faults and lost responses inside a pass (crash points): every request of a sample of the scenarios fails
+    without effect ("err") or takes effect with its response lost ("lost").  The model has no faults, so only the
+    monitor is judged: a request that failed without effect is no write (dropped), a lost response is a write."""
+    rng = random.Random(seed * 7919 + 17)
+    cands = []
+    for sc, obs, r in results:
+        if sc.get("between") or not obs.get("requests"):
+            continue
+        for i, q in enumerate(obs["requests"]):
+            for kind in ("err", "lost"):
+                cands.append((sc, i, kind, q.split()[0]))
+    rng.shuffle(cands)
+    # reads first: a failed read is where a reconciler may go on with a stale or missing picture
+    cands.sort(key=lambda c: 0 if c[3] in ("get", "list") else 1)
+    n = 500 if tier == "quick" else 6000
+    reads = [c for c in cands if c[3] in ("get", "list")][: n // 2]
+    writes = [c for c in cands if c[3] not in ("get", "list")][: n - len(reads)]
+    scs = [dict(sc, faults=[{"req": i, "kind": kind}]) for sc, i, kind, _ in reads + writes]
+    if only is not None:
+        scs = [dict(results[0][0], faults=only)] if results else []
+    outs = vlib.run_harness("phase", scs)
+    terms, idx = [], []
+    for i, (sc, o) in enumerate(zip(scs, outs)):
+        if "obs" not in o:
+            run.violation("corr:%s/harness error or panic" % pid, {"correspondence": "harness", "scenario": sc, "out": o}, False)
+            continue
+        obs = o["obs"]
+        evs = []
+        for e in obs["events"]:
+            if e.get("fault") == "err":
+                continue
+            if e.get("fault") == "lost":
+                e = dict(e, res="ok" if e["post"] is not None or e["verb"] == "delete" else "notfound")
+            evs.append(e)
+        obs["events_judged"] = evs
+        try:
+            terms.append(pl.c_case(sc, dict(obs, events=evs)))
+            idx.append(i)
+        except pl.Unrepresentable as e:
+            run.violation("corr:%s/observation outside the model's event language: %s" % (pid, e),
+                          {"correspondence": "PhaseCorr event language (fault stage)", "scenario": sc, "impl": obs}, False)
+    res, logs = vlib.judge_cases(pid + "f", IMPORTS, judge, terms, 2)
+    for l in logs:
+        run.violation("corr:%s/coq-eval" % pid, {"correspondence": "coq evaluation failed", "log": l}, False)
+    nfault = 0
+    for i, r in zip(idx, res):
+        if r is None:
+            continue
+        nfault += 1
+        sc, obs = scs[i], outs[i]["obs"]
+        run.classes.add(("fault", sc["flavor"], sc["op"], sc["faults"][0]["kind"], obs["res"], tuple((e["verb"], e["res"]) for e in obs["events"])))
+        if not r[1]:
+            run.violation(identity(sc, obs) + " (after an API fault inside the pass)", {"scenario": sc, "impl": obs}, True)
+    run.cov["fault_stage"] = {"evaluations": nfault, "reads_faulted": len(reads), "writes_faulted": len(writes),
+                              "judged": "monitor only (the model has no faults); failed-without-effect requests dropped, lost responses count as writes"}
+    run.cov["evaluations"] = run.cov.get("evaluations", 0) + nfault
+
+
 def teardown_table(tier):
     """Exhaustive abstract teardown table: one object, one phase entry."""
     out = []
@@ -178,7 +237,7 @@ def random_teardowns(seed, n):
     return scs
 
 
-def phase_check(run, pid, tier, seed, replay, scs, judge, identity, rule):
+def phase_check(run, pid, tier, seed, replay, scs, judge, identity, rule, faults=False):
     run.assumptions += [
         "pass-level atomicity with cache reads as fresh as the store, except for the scripted third-party op placed between read and write",
         "API-server semantics of coq/theories/Api.v as implemented by the harness's recording server",
@@ -190,6 +249,12 @@ def phase_check(run, pid, tier, seed, replay, scs, judge, identity, rule):
         return []
     if replay:
         scs = [json.load(open(replay))["replay"]["scenario"]]
+        if scs[0].get("faults"):
+            # a fault-stage replay: judged by the monitor only
+            sc = dict(scs[0]); sc.pop("faults")
+            base = run_cases(run, [sc], judge, 2)
+            fault_stage(run, pid, tier, seed, base, judge, identity, only=scs[0]["faults"])
+            return base
     results = run_cases(run, scs, judge, 2)
     run.cov["evaluations"] = len(results)
     for sc, obs, r in results:
@@ -202,6 +267,8 @@ def phase_check(run, pid, tier, seed, replay, scs, judge, identity, rule):
         elif not agree:
             run.violation("corr:%s/phase model and implementation differ" % pid,
                           {"correspondence": "PhaseCorr.agree", "scenario": sc, "impl": obs}, False)
+    if faults and not replay:
+        fault_stage(run, pid, tier, seed, results, judge, identity)
     run.cov["rule"] = rule + "; distinct = (flavor, op, outcome, error class, done, write verbs with results)"
     run.cov["samples"] = [{"scenario": s, "impl": {k: o[k] for k in ("res", "err", "done", "events") if k in o}} for s, o, _ in results[:2]]
     return results
